@@ -176,7 +176,7 @@ proof {
     if d0.relies() { lemma_seg_any(rel, r1, lvl, s, pre.o0@, pre.n0@, oc, nc, rs0); lemma_mono(r1, rs0, s); }
     // whatever state the user's hook is left in by the call below, if it satisfies the callee's
     // postcondition then the whole script is complete
-    assert forall|d1: D| #[trigger] seg_post(dmid, d1, pre.old, (pre.old_current..pre.old_end), pre.new, (pre.new_current..pre.new_end), lvl, false, fin::<D>(), true)
+    assert forall|d1: D| #[trigger] seg_post(dmid, d1, pre.old, (pre.old_current..pre.old_end), pre.new, (pre.new_current..pre.new_end), lvl, pre.deadline is None, fin::<D>(), true)
         && err_post(dmid, d1, Ok::<(), D::Error>(()))
         implies seg_post(d0, d1, pre.old, pre.ubox_o(), pre.new, pre.ubox_n(), lvl, false, fin::<D>(), true) && hook_frame(d0, d1, Ok::<(), D::Error>(())) by {
         let s2 = choose|q: Seq<Ev>| #[trigger] seg(pre.old, pre.new, lvl, q, oc, nc, pre.old_end as int, pre.new_end as int)
